@@ -202,9 +202,12 @@ def check_function(chk, rule, f, table, exceptions=None, funcs=None):
                     chk.ob(rule, key, not msgs, f.loc(ln), '; '.join(msgs) or 'dimension %s' % NAMES[want])
                     msgs = []
         elif node[0] == 'b' and node[1] in ('<', '>', '<=', '>=', '==', '!='):
-            a, b_ = U.dim(node[2]), U.dim(node[3])
-            if a in ('A', 'B', 'G') and b_ in ('A', 'B', 'G'):
+            a, b_ = U.dim(node[2], msgs.append), U.dim(node[3], msgs.append)
+            if (a in ('A', 'B', 'G') and b_ in ('A', 'B', 'G')) or msgs:
                 n += 1
-                chk.ob(rule, '%s:%s:cmp:%s' % (f.unit.name, f.name, show(node)[:50]), a == b_, f.loc(ln),
-                       'same dimension' if a == b_ else 'comparison of %s with %s: %s' % (NAMES[a], NAMES[b_], show(node)[:80]))
+                same = (a == b_) or not (a in ('A', 'B', 'G') and b_ in ('A', 'B', 'G'))
+                if not same:
+                    msgs.append('comparison of %s with %s: %s' % (NAMES[a], NAMES[b_], show(node)[:80]))
+                chk.ob(rule, '%s:%s:cmp:%s' % (f.unit.name, f.name, show(node)[:50]), not msgs, f.loc(ln),
+                       '; '.join(msgs) or 'same dimension')
     return n
